@@ -433,3 +433,28 @@ Proof.
 Qed.
 
 End Generic.
+
+(* ------------------------------------------------------------------------- *)
+(* a witness in the timestamp regime with same-changeset forward grouping:
+   way (changeset 7) stamped T; node 100: v1 long before, v2 ten minutes AFTER the way but in the
+   way's changeset (selected by forward grouping, threshold 30 min), v3 two hours later. *)
+Definition g_cis : Z := 1347442203000000000.
+Definition g_t (s : Z) : Z := g_cis - 100 * 86400000000000 + s * 1000000000.
+Definition g_versions : list hver :=
+  [ mkHver 1 3 (g_t (-7200)) zero_time 1 0 false true;
+    mkHver 2 7 (g_t 600) zero_time 2 0 false true;
+    mkHver 3 9 (g_t 7200) zero_time 3 0 false true ].
+Definition g_cl := to_child_list 100 g_versions.
+Definition g_hist (fid : Z) : hres := if fid =? 100 then HFound g_cl else HNotFound.
+Definition g_parents : list parent := [ mkParent 7 true (g_t 0) zero_time [mkRef 100 0 0 0 0 0] ].
+Definition g_opts : opts := mkOpts 1800000000000 false false None.
+Definition g_entries := map_child_locs g_parents None.
+
+Lemma g_hist_ok : hist_ok g_hist.
+Proof.
+  intros fid cl H a b Ha Hb Hv. unfold g_hist in H.
+  destruct (fid =? 100); [|discriminate]. inversion H; subst cl. clear H.
+  vm_compute in Ha, Hb.
+  destruct Ha as [<-|[<-|[<-|[]]]]; destruct Hb as [<-|[<-|[<-|[]]]];
+    try reflexivity; vm_compute in Hv; discriminate Hv.
+Qed.
